@@ -105,6 +105,49 @@ def variant_source(kind, source):
                 n.test = ast.UnaryOp(op=ast.Not(), operand=n.test)
                 n.body, n.orelse = n.orelse, n.body
         return ast.unparse(ast.fix_missing_locations(tree))
+    if kind == "elsedrop":
+        # if c: ...; return/raise/continue/break  else: B   ->   if c: ...;   B   (B dedented)
+        def fix(stmts):
+            out = []
+            for st in stmts:
+                for f in ("body", "orelse", "finalbody"):
+                    v = getattr(st, f, None)
+                    if isinstance(v, list) and v and isinstance(v[0], ast.stmt):
+                        setattr(st, f, fix(v))
+                for h in getattr(st, "handlers", []) or []:
+                    h.body = fix(h.body)
+                if isinstance(st, ast.If) and st.orelse and isinstance(st.body[-1], (ast.Return, ast.Raise, ast.Continue, ast.Break)):
+                    tail, st.orelse = st.orelse, []
+                    out.append(st)
+                    out.extend(tail)
+                else:
+                    out.append(st)
+            return out
+
+        tree.body = fix(tree.body)
+        return ast.unparse(ast.fix_missing_locations(tree))
+    if kind == "stmtswap":
+        # swap adjacent, independent, call-free single-name assignments
+        def names(n, ctx):
+            return {x.id for x in ast.walk(n) if isinstance(x, ast.Name) and isinstance(x.ctx, ctx)}
+
+        def simple(st):
+            return isinstance(st, ast.Assign) and len(st.targets) == 1 and isinstance(st.targets[0], ast.Name) and not any(isinstance(x, (ast.Call, ast.Subscript, ast.Attribute, ast.NamedExpr)) for x in ast.walk(st.value))
+
+        for n in ast.walk(tree):
+            for f in ("body", "orelse"):
+                v = getattr(n, f, None)
+                if not (isinstance(v, list) and v and isinstance(v[0], ast.stmt)):
+                    continue
+                i = 0
+                while i + 1 < len(v):
+                    a, b = v[i], v[i + 1]
+                    if simple(a) and simple(b) and a.targets[0].id != b.targets[0].id and a.targets[0].id not in names(b.value, ast.Load) and b.targets[0].id not in names(a.value, ast.Load):
+                        v[i], v[i + 1] = b, a
+                        i += 2
+                    else:
+                        i += 1
+        return ast.unparse(ast.fix_missing_locations(tree))
     if kind == "numpy":
         has = any(isinstance(n, ast.Import) and any(a.name == "numpy" and a.asname == "np" for a in n.names) for n in ast.walk(tree))
         if not has:
